@@ -99,7 +99,7 @@ Proof.
 Qed.
 
 (** fix-hasattr-call, idempotent on its own output's root: callable(..) is not a hasattr call *)
-Lemma C07_kernel_hasattr_step_stable a : hasattr_step (ECall BCallable [a]) = ECall BCallable [a].
+Lemma C07_kernel_hasattr_step_stable cfg a : hasattr_step cfg (ECall BCallable [a]) = ECall BCallable [a].
 Proof. reflexivity. Qed.
 
 (** * C01: well-formedness *)
@@ -136,10 +136,10 @@ Proof. intros H. exact H. Qed.
 
 (** * C02: names *)
 (** fix-hasattr-call introduces exactly one name, the builtin `callable` *)
-Lemma C02_kernel_hasattr_step_names a rest :
-  incl_str (names (hasattr_step (ECall BHasattr (a :: rest)))) (names (ECall BHasattr (a :: rest)) ++ builtin_names).
+Lemma C02_kernel_hasattr_step_names cfg a rest :
+  incl_str (names (hasattr_step cfg (ECall BHasattr (a :: rest)))) (names (ECall BHasattr (a :: rest)) ++ builtin_names).
 Proof.
-  cbn [hasattr_step]. destruct (last_is_call_lit (a :: rest)); [|intros x Hx; apply in_or_app; left; exact Hx].
+  cbn [hasattr_step]. destruct (hasattr_fires cfg a rest); [|intros x Hx; apply in_or_app; left; exact Hx].
   intros x Hx. cbn [names] in Hx. destruct Hx as [<-|Hx].
   - apply in_or_app. right. vm_compute. tauto.
   - apply in_or_app. left. cbn [names]. right. rewrite app_nil_r in Hx. apply in_or_app. left. exact Hx.
